@@ -84,21 +84,28 @@ SCOPES = (ast.FunctionDef, ast.AsyncFunctionDef, ast.ClassDef, ast.Lambda)
 
 
 def own_scope_nodes(fn, types):
+    """Nodes of the given types that belong to the scope of ``fn``: its body without nested scopes' bodies, but
+    including what nested scopes evaluate in *this* scope (defaults, annotations, decorators, base classes)."""
     out = []
 
-    def rec(n):
-        for c in ast.iter_child_nodes(n):
-            if isinstance(c, types):
-                out.append(c)
-            if isinstance(c, SCOPES):
-                continue
-            rec(c)
+    def visit(c):
+        if isinstance(c, types):
+            out.append(c)
+        if isinstance(c, SCOPES):
+            if isinstance(c, ast.Lambda):
+                outer_parts = [c.args]
+            elif isinstance(c, ast.ClassDef):
+                outer_parts = list(c.bases) + list(c.keywords) + list(c.decorator_list)
+            else:
+                outer_parts = [c.args] + list(c.decorator_list) + ([c.returns] if c.returns is not None else [])
+            for part in outer_parts:
+                visit(part)
+            return
+        for x in ast.iter_child_nodes(c):
+            visit(x)
     body = fn.body if isinstance(fn.body, list) else [fn.body]
     for part in body:
-        if isinstance(part, types):
-            out.append(part)
-        if not isinstance(part, SCOPES):
-            rec(part)
+        visit(part)
     return out
 
 
